@@ -8,6 +8,21 @@ def hook_commits():
     return [l.split()[0] for l in out.splitlines() if l.split(" ", 1)[1].startswith("verif hook")][::-1]
 
 CHECKS = {
+ "C04": dict(
+  category="fault_enumeration", design_ref="DESIGN.md 4/C04",
+  technique="exhaustive corruption enumeration (every bit flip / truncation / overwrite / payload swap) on small archives in isolated workers + scripted server faults + every --verify-header value class",
+  text="For each small base archive (hash length >= 8, raw and compressed, duplicate chunk) every single-bit flip, every truncation length, every 1-byte and 2-byte overwrite with {00, ff, xor 55}, every payload swap and trailing garbage, x {no seed, seed = source, unrelated seed} x {plain, verify-output}, through the library flow in isolated worker processes and a 1-in-7 (thorough 1-in-2) slice through the real bita binary; --verify-header with the right value, each of its 512 single-bit flips, another value, every proper prefix and over-long values through the real clone_cmd; 11 server misbehaviours at every request position through the real clone_cmd over loopback HTTP. Oracle: failure or exactly the original source; header changes rejected at open; clone proceeds iff the pinned checksum equals the archive's.",
+  note="Hash length >= 8 as the property states. A process death or panic counts as failure here (C15 judges crashes)."),
+ "C05": dict(
+  category="fault_enumeration", design_ref="DESIGN.md 4/C05",
+  technique="exhaustive crash-point x tear-offset enumeration on an instrumented device (library flow) + LD_PRELOAD write-fault injection on the real binary",
+  text="Library level: for every first run (plain, in place over every prior output of <=2/3 letters, with seeds) every output write k and EVERY tear offset t kills the run with t bytes of write k on the device; the clone is re-run in place on the remains and must succeed with output == source; repeated crashes (second run dies at each of its writes, third must complete); write/seek errors at every index must not end in success, short/pending answers must not fail the clone. Real binary: LD_PRELOAD shim makes the k-th write(2) on the output fail (EIO, ENOSPC, short+EIO) for every k -> exit status must be != 0, or tears it after t bytes and kills the process -> `clone --seed-output` re-run must restore the source; regular file and loop block device, 6 scenarios.",
+  note="Crash model: earlier writes complete, write k torn, nothing later (matches <=1 in-flight write of tokio::fs::File; bound to the real binary by the shim leg). No fsync/power-loss model."),
+ "C15": dict(
+  category="fault_enumeration", design_ref="DESIGN.md 4/C15",
+  technique="exhaustive field x adversarial-value mutation of checksum-valid headers (independent encoder), all bit flips/truncations, scripted server misbehaviour; every case in an isolated worker with address-space limit, watchdog and chunk horizons",
+  text="(i) every single-bit flip and truncation of three small archives; (ii) headers with a re-computed checksum whose fields (chunker parameters, compression, sizes, checksum lengths, rebuild indexes, descriptor sizes/offsets, chunk data offset, missing sub-messages, duplicated/missing descriptors, 100 kB version string) take every value of an adversarial alphabet, singly (quick) and in all pairs (thorough); each opened + info-printed, cloned, cloned with a seed (recorded chunker parameters in use), cloned in place and cloned over HTTP; (iii) 13 server misbehaviours at every request position with retry budgets 0 and 2 through the real clone_cmd. Oracle: success or reported error; a panic, process death, watchdog expiry or chunk-count horizon is a violation, classified by crash site.",
+  note="Known findings F8.b-d, f-i are matched by crash site (file + message kind) or, for process deaths, by the mutated field; anything else is reported. Declared chunk sizes >= 2^31 (legitimately allocated and zero-filled by readers) only in the thorough tier's single mutations."),
  "C07": dict(
   category="exploration", design_ref="DESIGN.md 4/C07",
   technique="exhaustive subset enumeration (2^n) against a logging scripted HTTP server on the real HttpReader",
